@@ -688,6 +688,7 @@ pub fn step(m: &mut Machine, op: Op, env: &mut Env, depth: usize) -> R<Flow> {
                 let parent = Arc::new(m.mem.clone());
                 let mut maxpc = 0usize;
                 let mut joined: Vec<Word> = vec![];
+                let mut joined_len = 0usize;
                 for i in 0..n {
                     let mut ch = Machine {
                         pc: m.pc + 1,
@@ -702,17 +703,17 @@ pub fn step(m: &mut Machine, op: Op, env: &mut Env, depth: usize) -> R<Flow> {
                         return Err(f);
                     }
                     maxpc = maxpc.max(ch.pc);
-                    joined.extend(ch.mem);
-                    if joined.len() > MEM_MAX {
-                        // keep the model's own memory use bounded; result is an error anyway
-                        // unless a later child fails first (also an error).
-                        return Err(Fail::Err);
+                    // Every child runs (and is charged for) before the join; only the words
+                    // that can still fit are kept so that the model's own memory stays bounded.
+                    joined_len += ch.mem.len();
+                    if joined_len <= MEM_MAX {
+                        joined.extend(ch.mem);
                     }
                 }
                 if maxpc <= m.pc {
                     return Err(Fail::Unspec("compute-no-progress"));
                 }
-                if m.mem.len() + joined.len() > MEM_MAX {
+                if m.mem.len() + joined_len > MEM_MAX {
                     return Err(Fail::Err);
                 }
                 m.mem.extend(joined);
